@@ -32,10 +32,15 @@ lazy_static! {
     .unwrap();
 }
 
-pub(crate) fn exec(var: Variable) -> Variable {
+pub(crate) fn exec(var: Variable, static_type: Type) -> Variable {
     #[cfg(feature = "verif")]
     let _helper = crate::verif::helper_scope();
-    let element_type = var.as_type().element_type().unwrap();
+    let mut element_type = var.as_type().element_type().unwrap();
+    if Variable::of_type(&element_type).is_none() {
+        // e.g. an empty array, whose run-time element type is `!`: there is no filler of that
+        // type to return once the iterator is exhausted, so use the type the checker promised
+        element_type = static_type.element_type().unwrap_or(element_type);
+    }
     let default = Variable::of_type(&element_type).unwrap_or(Variable::Void);
     let result = ITER
         .exec_with_args(&[var, default])
